@@ -265,3 +265,105 @@ func TestStreamApp(t *testing.T) {
 	}
 	writeMeta("stream_app.meta.json", map[string]any{"executions": n, "events": total})
 }
+
+// slowConn yields between writes, so that another sender gets to run while a multi-buffer wire is being written
+type slowConn struct{ net.Conn }
+
+func (c slowConn) Write(p []byte) (int, error) {
+	time.Sleep(200 * time.Microsecond) // real time: this driver runs outside a bubble (a sleep under the send mutex would stall one)
+	return c.Conn.Write(p)
+}
+
+// TestStreamSend (spec/link/StreamSend.tla): several goroutines send multi-buffer wires on ONE real application StreamFace;
+// the peer reads the raw stream. Every buffer is filled with a byte that identifies (sender, packet, buffer), so the order in
+// which buffers reached the connection can be read off the stream.
+func TestStreamSend(t *testing.T) {
+	defer watchDriver("TestStreamSend")()
+	w := newTrace("stream_send.ndjson")
+	defer w.Close()
+	n := envInt("VERIF_N", 40)
+	for tr := 0; tr < n; tr++ {
+		rng := rand.New(rand.NewSource(verifSeed()*13 + int64(tr)))
+		func() {
+			a, b := net.Pipe()
+			f := appface.NewVerifStreamFace(slowConn{a})
+			type bufID struct{ s, k, b int }
+			ids := map[byte]bufID{}
+			lens := map[byte]int{}
+			var plans [][]enc.Wire
+			next := byte(1)
+			total, buffers := 0, 0
+			for s := 1; s <= 2+rng.Intn(2); s++ {
+				var pk []enc.Wire
+				for k := 1; k <= 1+rng.Intn(3); k++ {
+					var wire enc.Wire
+					for bb := 1; bb <= []int{1, 1, 2, 3, 4}[rng.Intn(5)]; bb++ {
+						l := 1 + rng.Intn(40)
+						buf := make([]byte, l)
+						for i := range buf {
+							buf[i] = next
+						}
+						ids[next], lens[next] = bufID{s, k, bb}, l
+						next++
+						total += l
+						buffers++
+						wire = append(wire, buf)
+					}
+					pk = append(pk, wire)
+				}
+				plans = append(plans, pk)
+			}
+			errs := 0
+			var mu sync.Mutex
+			var wg sync.WaitGroup
+			for _, pk := range plans {
+				wg.Add(1)
+				go func() {
+					defer wg.Done()
+					for _, wire := range pk {
+						if err := f.Send(wire); err != nil {
+							mu.Lock()
+							errs++
+							mu.Unlock()
+						}
+					}
+				}()
+			}
+			got := make([]byte, 0, total)
+			rd := make(chan struct{})
+			go func() {
+				defer close(rd)
+				tmp := make([]byte, 64)
+				for len(got) < total {
+					k, err := b.Read(tmp)
+					got = append(got, tmp[:k]...)
+					if err != nil {
+						return
+					}
+				}
+			}()
+			wg.Wait()
+			<-rd
+			a.Close()
+			b.Close()
+			runs := []map[string]int{}
+			garbage := 0
+			seen := map[byte]bool{}
+			for i := 0; i < len(got); {
+				j := i
+				for j < len(got) && got[j] == got[i] {
+					j++
+				}
+				id, ok := ids[got[i]]
+				if !ok || seen[got[i]] || j-i != lens[got[i]] {
+					garbage++ // a buffer cut in two, repeated or unknown
+				} else {
+					runs = append(runs, map[string]int{"s": id.s, "k": id.k, "b": id.b})
+				}
+				seen[got[i]] = true
+				i = j
+			}
+			w.Emit(map[string]any{"ev": "sent", "runs": runs, "buffers": buffers, "garbage": garbage, "errors": errs})
+		}()
+	}
+}
